@@ -217,24 +217,34 @@ class C05(Prop):
             vec = []
             for k, cnt in enumerate(sched[1:]):
                 vec += [k % nt] * int(cnt)
-        s = Sched(vec, [self.target])
-        stores = self._mk_stores(specs, setatp)
-        glog = []
-        for j, st in enumerate(stores):
-            st._lock = RecLock(s, j, st, glog, self._snap)
-        rets = [[None] * len(p) for p in threads]
-        cur_call = {}
+        def execute():
+            s = Sched(vec, [self.target])
+            stores = self._mk_stores(specs, setatp)
+            glog = []
+            for j, st in enumerate(stores):
+                st._lock = RecLock(s, j, st, glog, self._snap)
+            rets = [[None] * len(p) for p in threads]
 
-        def mk(t):
-            def body():
-                for i, c in enumerate(threads[t]):
-                    cur_call[t] = i
-                    rets[t][i] = self._do(stores, c)
-            return body
-        # tag acquisitions with the call they belong to
-        orig_append = glog.append
-        finished = s.run([mk(t) for t in range(nt)], join_timeout=5)
-        deadlock = s.deadlock or not finished
+            def mk(t):
+                def body():
+                    for i, c in enumerate(threads[t]):
+                        rets[t][i] = self._do(stores, c)
+                return body
+            finished = s.run([mk(t) for t in range(nt)], join_timeout=20)
+            raised = [r[1] for r in (s.results or []) if r and r[0] == "raise"]
+            return s, stores, glog, rets, (s.deadlock or not finished), raised
+        s, stores, glog, rets, deadlock, raised = execute()
+        if deadlock or raised:
+            # the scheduler is deterministic: a real deadlock / exception reproduces; a starved OS thread does not
+            s2, stores2, glog2, rets2, deadlock2, raised2 = execute()
+            if not (deadlock2 or raised2) or (deadlock2, [type(e) for e in raised2]) != (deadlock, [type(e) for e in raised]):
+                self.flaky = getattr(self, "flaky", 0) + 1
+                s3 = execute()
+                if (s3[4], [type(e) for e in s3[5]]) == (deadlock2, [type(e) for e in raised2]):
+                    s, stores, glog, rets, deadlock, raised = s2, stores2, glog2, rets2, deadlock2, raised2
+                else:
+                    from ..core import Infra
+                    raise Infra(f"scheduler run not reproducible for {base}")
         # reconstruct acts in acquisition order
         acts = []
         per_thread_pos = {t: [0, 0] for t in range(nt)}     # [call index, acquisitions seen within the call]
@@ -280,6 +290,8 @@ class C05(Prop):
         lines.append(f"final {nt} {len(stores)}")
         fin_rets = " ".join("[" + ",".join(self._show_ret(r) for r in rets[t] if True) + "]" for t in range(nt))
         fin = fin_rets + " | " + " ; ".join(self._snap(st) for st in stores)
+        if raised:
+            fin = "raise:" + type(raised[0]).__name__ + " " + fin
         obs.append("deadlock " + fin if deadlock else fin)
         case["lines"] = lines
         extra = {"specs": specs, "setatp": setatp, "threads": threads, "rets": rets, "deadlock": deadlock,
